@@ -118,6 +118,7 @@ fn main() {
     "storage_signing" => signing::signing(&cex),
     "document_ops" => docops::document_ops(&cex),
     "resolver" => resolver::resolver(&cex),
+    "alg_names" => jws::alg_names(&cex),
     "kani" => kani_replay(&cex),
     "panic_sweep" => panic_sweep(),
     "selftest" => selftest(),
